@@ -226,7 +226,11 @@ def startup_unit(m):
     calls before it builds Databases."""
     P = m.prog
     out = []
+    # a helper that inline.py spliced into its only caller stays in the program as a body of its own: it is judged where it was spliced in
+    spliced = {r.get('tree') for r in (getattr(P, 'renamed', None) or []) if r.get('kind') == 'inlined-helper'}
     for sb in P.user_bodies():
+        if sb.id in spliced:
+            continue
         cb = [bi for bi, t in sb.calls() if callee(t).endswith('db_ops::create_init_dbs')]
         if not cb:
             continue
